@@ -86,26 +86,8 @@ pub fn gen_c06(tier: &str, seed: u64, out: &mut dyn FnMut(Value)) {
         }
     }
     // dependency chains deeper than any plausible recursion bound, and wide fans
-    for depth in [8usize, 31, 32, 33, 34, 40, 64, 100] {
-        let mut rules = vec![];
-        for i in 0..depth {
-            let mut ops: Vec<(String, Operand)> = vec![];
-            if i == 0 {
-                ops.push(("$f".into(), Operand::Test { segs: fpath(0), op: 0, lit: Lit::sq("1") }));
-            } else {
-                ops.push(("$d".into(), Operand::Rule(format!("c{}", i - 1))));
-            }
-            let cond = if i % 2 == 1 { Form::Not(Box::new(Form::V("$d".into()))) } else if i == 0 { Form::V("$f".into()) } else { Form::V("$d".into()) };
-            rules.push(SRule {
-                name: format!("c{i}"),
-                ty: Some(if i + 1 == depth { "detection" } else { "dependency" }.into()),
-                ops,
-                cond: Some(cond),
-                severity: Some(1),
-                ..Default::default()
-            });
-        }
-        out(scenario_json(&rules, &events_m, &mut rng, "dependency chain"));
+    for depth in [8usize, 31, 32, 33, 34, 40, 63, 64, 65, 66, 100, 127, 128, 129, 255, 256, 257] {
+        out(scenario_json(&deep_chain(depth), &events_m, &mut rng, "dependency chain"));
     }
     // forward, self, unknown and disabled references: the compiler must reject them
     let cfg = Cfg { bad_ref_prob: (1, 4), disabled_prob: (1, 5), max_rules: 5, n_events: 3, ..Cfg::default() };
@@ -113,6 +95,30 @@ pub fn gen_c06(tier: &str, seed: u64, out: &mut dyn FnMut(Value)) {
     // random larger DAGs
     let cfg = Cfg { max_rules: 10, dep_prob: (2, 3), n_events: 8, err_ops: false, ..Cfg::default() };
     gen_random(&mut rng, &cfg, if thorough { 100000 } else { 4000 }, "random DAG up to 10 rules", (1, 12), out);
+}
+
+/// `c0 <- c1 <- ... <- c(depth-1)`: `c0` tests a field, every other rule is (alternately the negation of) its
+/// predecessor; only the last one is reported
+pub fn deep_chain(depth: usize) -> Vec<SRule> {
+    let mut rules = vec![];
+    for i in 0..depth {
+        let mut ops: Vec<(String, Operand)> = vec![];
+        if i == 0 {
+            ops.push(("$f".into(), Operand::Test { segs: fpath(0), op: 0, lit: Lit::sq("1") }));
+        } else {
+            ops.push(("$d".into(), Operand::Rule(format!("c{}", i - 1))));
+        }
+        let cond = if i % 2 == 1 { Form::Not(Box::new(Form::V("$d".into()))) } else if i == 0 { Form::V("$f".into()) } else { Form::V("$d".into()) };
+        rules.push(SRule {
+            name: format!("c{i}"),
+            ty: Some(if i + 1 == depth { "detection" } else { "dependency" }.into()),
+            ops,
+            cond: Some(cond),
+            severity: Some(1),
+            ..Default::default()
+        });
+    }
+    rules
 }
 
 /// C07: arbitrary types, severities 0..255, overlapping / empty / mixed-case sets x all subsets matching
@@ -212,6 +218,15 @@ pub fn gen_c12(tier: &str, seed: u64, out: &mut dyn FnMut(Value)) {
         }
         out(serde_json::json!({"op": "history_meta", "n_rules": n_rules, "events": events, "tag": "implementation only: used engine vs pristine clone, > 65536 rules", "nt": true}));
     }
+    // two events of one kind separated by exactly 2^k - 1, 2^k, 2^k + 1 scans of another kind that never looks at the
+    // dependency (any per-scan stamp or counter kept in a narrow integer comes round again)
+    for gap in if tier == "thorough" { vec![127u64, 254, 255, 256, 257, 511, 65534, 65535, 65536, 65537, 131071] } else { vec![254u64, 255, 256, 65534, 65535, 65536] } {
+        let ev = |src: &str, id: i64, x: &str, y: &str| serde_json::json!({"source": src, "id": id, "fields": [[["x"], {"s": x}], [["y"], {"s": y}]]});
+        for (x1, x2) in [("1", "0"), ("0", "1")] {
+            let events = serde_json::json!([ev("s", 1, x1, "1"), {"repeat": gap, "event": ev("other", 7, "1", "1")}, ev("s", 1, x2, "1"), ev("s", 2, x1, "1")]);
+            out(serde_json::json!({"op": "history_meta", "n_rules": 5, "events": events, "tag": "implementation only: a dependency's verdict flips after a gap of 2^k +- 1 scans", "nt": true}));
+        }
+    }
     // long histories: thousands of distinct (source, id) pairs interleaved with a frequent one — more than a
     // bounded cache would keep, and long enough for any periodic clean-up to run
     let n_long = if tier == "thorough" { 6 } else { 2 };
@@ -241,6 +256,31 @@ pub fn gen_c12(tier: &str, seed: u64, out: &mut dyn FnMut(Value)) {
 /// C13: S, supersets S+T, and dependency-respecting permutations of S
 pub fn gen_c13(tier: &str, seed: u64, out: &mut dyn FnMut(Value)) {
     let mut rng = Rng::new(seed);
+    // long dependency chains, alone and next to an unrelated rule that happens to use a rule low in the chain and is
+    // visited first (higher severity): the top of the chain is reported or not whatever else is loaded, wherever
+    {
+        let events: Vec<DynEvent> = [Some(s1("1")), Some(s1("0")), None].iter().map(|v| DynEvent { source: "s".into(), id: 1, fields: v.clone().map(|v| (fpath(0), v)).into_iter().collect() }).collect();
+        for depth in [31usize, 33, 64, 65, 66, 70, 100, 129, 257] {
+            let s = deep_chain(depth);
+            out(scenario_json(&s, &events, &mut rng, "S: long chain"));
+            for at in [1usize, 5, depth / 2, depth - 2] {
+                let t = SRule {
+                    name: "zz.other".into(),
+                    ty: Some("detection".into()),
+                    ops: vec![("$d".into(), Operand::Rule(format!("c{}", at.min(depth - 2))))],
+                    cond: Some(Form::V("$d".into())),
+                    severity: Some(10),
+                    ..Default::default()
+                };
+                let mut sup = s.clone();
+                sup.push(t.clone());
+                out(scenario_json(&sup, &events, &mut rng, "S + T: long chain and a rule sharing its lower part"));
+                let mut sup2 = s.clone();
+                sup2.insert(at.min(depth - 2) + 1, t);
+                out(scenario_json(&sup2, &events, &mut rng, "S + T: long chain and a rule sharing its lower part"));
+            }
+        }
+    }
     let n = if tier == "thorough" { 30000 } else { 2000 };
     for _ in 0..n {
         let cfg = Cfg { max_rules: 5, n_events: 6, ..Cfg::default() };
@@ -348,7 +388,19 @@ pub fn exec_history_meta(case: &Value) -> Value {
     };
     let pristine = eng.clone();
     let mut used = eng;
-    for (i, ev) in case["events"].as_array().cloned().unwrap_or_default().iter().enumerate() {
+    // an entry `{"repeat": n, "event": e}` stands for n copies of e
+    let mut events: Vec<Value> = vec![];
+    for e in case["events"].as_array().cloned().unwrap_or_default() {
+        match e.get("repeat").and_then(|r| r.as_u64()) {
+            Some(k) => {
+                for _ in 0..k {
+                    events.push(e["event"].clone());
+                }
+            }
+            None => events.push(e),
+        }
+    }
+    for (i, ev) in events.iter().enumerate() {
         let ev = match crate::event::event_from_json(ev) {
             Ok(e) => e,
             Err(e) => return json!({ "badevent": e }),
